@@ -22,7 +22,8 @@ func (r *Replayer) Replay(process func(record []byte) error) (err error) {
 			return err
 		}
 
-		if !info.IsDir() && strings.HasSuffix(info.Name(), defaultWalSuffix) {
+		// a crash right after the creation of a new WAL file leaves an empty file without a header behind
+		if !info.IsDir() && strings.HasSuffix(info.Name(), defaultWalSuffix) && info.Size() > 0 {
 			walFiles = append(walFiles, path)
 		}
 
